@@ -2,6 +2,7 @@ package main
 
 import (
 	"fmt"
+	"go/ast"
 	"go/constant"
 	"go/token"
 	"go/types"
@@ -207,6 +208,17 @@ func (fr *Frame) execInstr(in ssa.Instruction) bool {
 	pos := e.posOf(in.Pos())
 	switch x := in.(type) {
 	case *ssa.DebugRef:
+		// remember the current value of named local variables for contract expressions
+		if !x.IsAddr {
+			if id, ok := x.Expr.(*ast.Ident); ok && fr.depth == 0 {
+				if fr.debugVals == nil {
+					fr.debugVals = map[string]Val{}
+				}
+				if v, ok := fr.vals[x.X]; ok {
+					fr.debugVals[id.Name] = v
+				}
+			}
+		}
 		return false
 	case *ssa.Alloc:
 		T := x.Type().Underlying().(*types.Pointer).Elem()
@@ -337,6 +349,14 @@ func (fr *Frame) execInstr(in ssa.Instruction) bool {
 		fr.execMapUpdate(x)
 	case *ssa.Range:
 		fr.set(x, Val{S: "0"})
+		if _, isMap := x.X.Type().Underlying().(*types.Map); isMap {
+			// ghost set of the keys this iteration has delivered so far
+			if ks, ok := e.mapSorts(x.X.Type()); ok {
+				key := rangeKey(x)
+				srt := arrSort(ks, sBool)
+				e.heapSet(fr.st, key, srt, constArr(srt, "false"))
+			}
+		}
 	case *ssa.Next:
 		v := e.freshVal(x.Type(), "next_"+x.Name(), fr.pc)
 		if rg, ok := x.Iter.(*ssa.Range); ok && !x.IsString {
@@ -357,6 +377,18 @@ func (fr *Frame) execInstr(in ssa.Instruction) bool {
 							}
 						}
 						e.assume(mkImp(mkAnd(fr.pc, v.F[0].S), mkAnd(append([]string{pres, mkNot(mkEq(m.S, "0"))}, eqs...)...)))
+						// every key is delivered exactly once: the delivered key is new, and the
+						// iteration ends only when all present keys have been delivered
+						// (assumption: the map is not modified while it is ranged over)
+						rk := rangeKey(rg)
+						vsrt := arrSort(ks, sBool)
+						vis := e.heapGet(fr.st, rk, vsrt)
+						e.assume(mkImp(mkAnd(fr.pc, v.F[0].S), mkNot(sel(vis, kterm[0]))))
+						e.nf++
+						q := sym(fmt.Sprintf("q_k!%d", e.nf))
+						allPres := sel(sel(e.heapGet(fr.st, "M:"+typeKey(MT)+".present", arrSort(sRef, arrSort(ks, sBool))), m.S), q)
+						e.assume(mkImp(mkAnd(fr.pc, mkNot(v.F[0].S)), "(forall (("+q+" "+ks+")) (=> "+allPres+" "+sel(vis, q)+"))"))
+						e.heapSet(fr.st, rk, vsrt, mkIte(v.F[0].S, sto(vis, kterm[0], "true"), vis))
 					}
 				}
 			}
@@ -1080,4 +1112,8 @@ func (e *Exec) zeroGhosts(fr *Frame, ref string, T types.Type) {
 		arr := e.heapGet(fr.st, key, srt)
 		e.heapSet(fr.st, key, srt, sto(arr, ref, zeroScalar(GT)))
 	}
+}
+
+func rangeKey(r *ssa.Range) string {
+	return fmt.Sprintf("R:%s:%s", r.Parent().Name(), r.Name())
 }
